@@ -143,6 +143,21 @@ func (wd *World) runEpilogue() {
 			r.end(c)
 		}
 	}
+	// job objects a (user-supplied) queue refused: they are job handles too
+	for _, q := range wd.qs {
+		if q.rq == nil {
+			continue
+		}
+		for _, it := range q.rq.rejected {
+			if sp, ok := it.item.(StatusProvider); ok {
+				c := r.begin(opStatus, q.idx, it.sub)
+				c.Arg = 2 // refused item
+				c.Str = sp.Status()
+				c.OK = sp.IsClosed()
+				r.end(c)
+			}
+		}
+	}
 	simrt.WaitQuiescent()
 }
 
